@@ -74,14 +74,16 @@ Qed.
 Theorem shift_vars_covers_owners : shift_vars_complete = true.
 Proof. vm_compute. reflexivity. Qed.
 
-(* dfs_common pushes the expression of every quantifier that has one, except (recorded finding) the percentage *)
+(* dfs_common pushes the expression of every quantifier that has one *)
 Theorem quantifier_exprs_traversed :
-  forall v, In v quantifier_expr_variants -> In v quantifier_traversed_variants \/ v = "Percentage"%string.
+  forall v, In v quantifier_expr_variants -> In v quantifier_traversed_variants.
 Proof.
   assert (H : quantifier_traversal_ok = true) by (vm_compute; reflexivity).
-  unfold quantifier_traversal_ok, quantifier_untraversed in H. rewrite forallb_forall in H.
+  unfold quantifier_traversal_ok in H.
+  destruct quantifier_untraversed as [|u us] eqn:U; [|discriminate H].
   intros v Hv. destruct (existsb (String.eqb v) quantifier_traversed_variants) eqn:E.
-  - left. apply existsb_exists in E. destruct E as [x [Hx Ex]]. apply String.eqb_eq in Ex. subst. exact Hx.
-  - right. apply String.eqb_eq. apply H. apply filter_In. split; [exact Hv|]. rewrite E. reflexivity.
+  - apply existsb_exists in E. destruct E as [x [Hx Ex]]. apply String.eqb_eq in Ex. subst. exact Hx.
+  - exfalso. assert (I : In v quantifier_untraversed).
+    { unfold quantifier_untraversed. apply filter_In. split; [exact Hv|]. rewrite E. reflexivity. }
+    rewrite U in I. exact I.
 Qed.
-
